@@ -599,7 +599,7 @@ impl Ctx {
         );
         if !self.violations.is_empty() {
             1
-        } else if !self.stats.inconclusive.is_empty() && self.stats.nontrivial.len() < 2 {
+        } else if !self.stats.inconclusive.is_empty() && (self.stats.nontrivial.len() < 2 || self.stats.inconclusive.len() as u64 * 4 > self.stats.evaluations) {
             for w in self.stats.inconclusive.iter().take(5) {
                 eprintln!("inconclusive: {w}");
             }
